@@ -241,6 +241,8 @@ pub struct World {
     pub fault_hit_in_tx: bool,
     pub zero_ibc_ok: bool,
     pub zero_tf_ok: bool,
+    /// bank accepts any non-empty recipient string (a real bank refuses foreign prefixes and bad checksums)
+    pub lenient_bank: bool,
 }
 
 #[derive(Clone, Debug)]
@@ -313,6 +315,7 @@ impl World {
             fault_hit_in_tx: false,
             zero_ibc_ok: false,
             zero_tf_ok: false,
+            lenient_bank: false,
         }
     }
 
@@ -678,7 +681,7 @@ impl World {
     fn handle_msg(&mut self, contract: &str, msg: CosmosMsg) -> Result<Option<Vec<u8>>, String> {
         match msg {
             CosmosMsg::Bank(BankMsg::Send { to_address, amount }) => {
-                if b32_decode(&to_address).map(|d| d.0 != self.setup.proto_prefix).unwrap_or(true) {
+                if !(self.lenient_bank && !to_address.is_empty()) && b32_decode(&to_address).map(|d| d.0 != self.setup.proto_prefix).unwrap_or(true) {
                     return err(format!("bank: invalid recipient {}", to_address));
                 }
                 for c in amount {
@@ -701,7 +704,7 @@ impl World {
             if from != contract {
                 return err("MsgSend: signer is not the contract");
             }
-            if b32_decode(&to).map(|d| d.0 != self.setup.proto_prefix).unwrap_or(true) {
+            if !(self.lenient_bank && !to.is_empty()) && b32_decode(&to).map(|d| d.0 != self.setup.proto_prefix).unwrap_or(true) {
                 return err(format!("MsgSend: invalid recipient {}", to));
             }
             for c in m.all_bytes(3) {
